@@ -65,7 +65,7 @@ func concScenario(r *rand.Rand, id string, nscr, nrec int, tw *vh.TraceWriter, r
 	}
 	defer wd.close()
 	wd.maxScale = 6
-	tw.Emit(map[string]any{"ev": "New", "sc": id, "opts": o, "res": resAttrs, "ases": ases, "bounds": boundsText, "scopes": []ScopeRec{}})
+	tw.Emit(map[string]any{"ev": "New", "sc": id, "opts": o, "res": resAttrs, "ases": ases, "bounds": boundsText, "qbounds": qbounds, "scopes": []ScopeRec{}, "mark": true})
 	late := insts[len(insts)-1]
 	early := insts[:len(insts)-1]
 	for _, in := range early {
